@@ -2,20 +2,23 @@
 # usage: import_seeds.sh Cxx  -- imports /tmp/mut/Cxx_w3_out/m5,m6 as seeded/Cxx_m<next>, confirms each in a scratch worktree
 # (suite passes with the change, demo fails with it and passes without) with tools/confirm_seed.sh
 P=$1
+W=${2:-w3}
 for m in m5 m6; do
-  src=/tmp/mut/${P}_w3_out/$m
+  src=/tmp/mut/${P}_${W}_out/$m
   [ -f $src/patch.diff ] || { echo "$P $m: no patch"; continue; }
   n=1; while [ -d /verif/seeded/${P}_m$n ]; do n=$((n+1)); done
   name=${P}_m$n
   bash /verif/tools/confirm_seed.sh $src $name > /var/tmp/confirm_$name.txt 2>&1
   line=$(tail -1 /var/tmp/confirm_$name.txt)
   echo "$line"
-  if echo "$line" | grep -q "demo mutated: test result: FAILED" && echo "$line" | grep -q "demo pristine: test result: ok" && echo "$line" | grep -Eq "default=[0-9]+p/0f all=[0-9]+p/[0-9]+f"; then
+  # the crate's own tests must all pass: failing tests other than the demo's (tests/zz_demo.rs) disqualify the seed
+  other=$(grep -E "^test .* FAILED$" /var/tmp/seed_$name.log /var/tmp/seed_$name.log.all 2>/dev/null | grep -v "zz_demo" | awk '{print $2}' | sort -u | while read t; do grep -q "fn $t\b" $src/demo.rs || echo $t; done | head -3)
+  if echo "$line" | grep -q "demo mutated: test result: FAILED" && echo "$line" | grep -q "demo pristine: test result: ok" && [ -z "$other" ]; then
     mkdir -p /verif/seeded/$name; cp $src/patch.diff $src/demo.rs $src/meta.json /verif/seeded/$name/
-    python3 - "$name" "$line" <<'PY'
+    python3 - "$name" "$line" "${W#w}" <<'PY'
 import json,sys
 p='/verif/seeded/%s/meta.json'%sys.argv[1]
-m=json.load(open(p)); m['confirmed_by_coordinator']=sys.argv[2]; m['wave']=3
+m=json.load(open(p)); m['confirmed_by_coordinator']=sys.argv[2]; m['wave']=int(sys.argv[3])
 json.dump(m,open(p,'w'),indent=1)
 PY
     echo "stored $name"
